@@ -27,7 +27,7 @@ def run(ctx):
     if not h:
         return
     rng = ctx.rng
-    N = 250 if not ctx.thorough else 4000
+    N = 500 if not ctx.thorough else 6000
     items, origin = [], []
     for s in WITNESSES:
         items.append(("1", [ord(c) for c in s])); origin.append("witness " + s)
@@ -38,7 +38,7 @@ def run(ctx):
         items.append((w, u)); origin.append("accept")
         for k in range(len(u)):
             items.append((w, u[:k])); origin.append("prefix")
-        for sfx in (_json.SUFFIXES if ctx.thorough else rng.sample(_json.SUFFIXES, 8)):
+        for sfx in (_json.SUFFIXES if ctx.thorough else rng.sample(_json.SUFFIXES, 8)) + _json.CONTROL_SUFFIXES:
             items.append((w, u + [sfx])); origin.append("suffix")
             items.append((w, u + [32, sfx])); origin.append("suffix")
         closers = [i for i, x in enumerate(u) if x in (93, 125)]
